@@ -91,6 +91,7 @@ class Emitter:
     def __init__(self, tu):
         self.tu = tu
         self.structs = {}      # struct name -> text
+        self.recname = {}
         self.funcs = {}        # cname -> text
         self.protos = {}
         self.todo = []
@@ -103,6 +104,13 @@ class Emitter:
     def ctype(self, t):
         q = t.get('desugaredQualType') or t.get('qualType')
         return self.ctype_s(q)
+
+    def cdecl(self, t, name):
+        q = (t.get('desugaredQualType') or t.get('qualType')).strip()
+        m = re.match(r'^(.*?)\s*((\[\d+\])+)$', q)
+        if m:
+            return '%s %s%s' % (self.ctype_s(m.group(1)), name, m.group(2))
+        return '%s %s' % (self.ctype_s(q), name)
 
     def ctype_s(self, q):
         q = q.strip()
@@ -123,20 +131,30 @@ class Emitter:
         if q in base:
             return base[q]
         q2 = q.replace('(anonymous namespace)::', '').replace('foonathan::memory::detail::', '').replace('foonathan::memory::', '')
-        q2 = re.sub(r'^(struct|class) ', '', q2)
+        q2 = re.sub(r'^(struct|class|enum) ', '', q2)
+        simple = q2.split('::')[-1]
+        for n in self.tu.byid.values():
+            if n.get('kind') == 'EnumDecl' and n.get('name') == simple and 'inner' in n:
+                u = n.get('fixedUnderlyingType', {}).get('qualType', 'int')
+                return self.ctype_s(u)
         self.need_struct(q2)
         return 'struct ' + cname(q2)
 
-    def need_struct(self, name):
+    def is_pattern(self, n):
+        p = self.tu.parent.get(n['id'])
+        return n.get('kind') == 'CXXRecordDecl' and p is not None and p.get('kind') == 'ClassTemplateDecl'
+
+    def need_struct(self, name, rec=None):
+        simple = re.sub(r'<.*$', '', name).split('::')[-1]
         if name in self.structs:
             return
-        rec = None
-        for n in self.tu.byid.values():
-            if n.get('kind') in ('CXXRecordDecl', 'ClassTemplateSpecializationDecl') and n.get('name') == name and n.get('completeDefinition'):
-                rec = n
-                break
         if rec is None:
-            raise Abort('no record for type ' + name)
+            cands = [n for n in self.tu.byid.values()
+                     if n.get('kind') in ('CXXRecordDecl', 'ClassTemplateSpecializationDecl') and n.get('name') == simple
+                     and n.get('completeDefinition') and not self.is_pattern(n) and not self.in_template(n)]
+            if len(cands) != 1:
+                raise Abort('record for type %r: %d candidates' % (name, len(cands)))
+            rec = cands[0]
         self.structs[name] = None  # placeholder against recursion
         fields = []
         for b in rec.get('bases', []) or []:
@@ -144,8 +162,19 @@ class Emitter:
             fields.append(f'  {bt} base_{cname(bt)};')
         for c in rec.get('inner', []):
             if c.get('kind') == 'FieldDecl':
-                fields.append(f"  {self.ctype(c['type'])} {c['name']};")
+                fields.append('  ' + self.cdecl(c['type'], c['name']) + ';')
         self.structs[name] = 'struct %s {\n%s\n};' % (cname(name), '\n'.join(fields) or '  char __empty;')
+        self.recname[rec['id']] = name
+
+    def in_template(self, n):
+        p = self.tu.parent.get(n.get('id'))
+        while p is not None:
+            if p.get('kind') in ('ClassTemplateDecl', 'FunctionTemplateDecl', 'ClassTemplatePartialSpecializationDecl'):
+                return True
+            if p.get('kind') == 'ClassTemplateSpecializationDecl':
+                return False
+            p = self.tu.parent.get(p.get('id')) if 'id' in p else None
+        return False
 
     # ---------- functions ----------
     def fn_cname(self, fn):
@@ -179,7 +208,7 @@ class Emitter:
         ps = []
         if is_member:
             cls = self.tu.class_of(fn)
-            self.need_struct(cls['name'])
+            self.need_struct(cls['name'], cls)
             ps.append('struct %s *self' % cname(cls['name']))
         for i, p in enumerate(self.params(fn)):
             ps.append('%s %s' % (self.ctype(p['type']), p.get('name') or 'p%d' % i))
@@ -257,6 +286,11 @@ class Emitter:
         if k == 'DoStmt':
             body, cond = s['inner']
             return I + 'do\n' + I + '/*@LOOP@*/\n' + self.stmt_block(body, ind) + I + 'while (%s);\n' % self.expr(cond)
+        if k == 'CXXThrowExpr' or (k == 'ExprWithCleanups' and s['inner'][0]['kind'] == 'CXXThrowExpr'):
+            th = s if k == 'CXXThrowExpr' else s['inner'][0]
+            exn = self.strip(th['inner'][0])['type']['qualType'].split('::')[-1]
+            rt = ret_of(self.cur_fn['type']['qualType'])
+            return I + '{ __exc = EXC_%s; %s }  /* throw %s(...) : exception object ctor omitted in this prototype */\n' % (exn, 'return;' if rt == 'void' else 'return 0;', exn)
         # expression statement
         return I + self.expr(s) + ';\n'
 
@@ -290,8 +324,8 @@ class Emitter:
     def expr(self, e):
         k = e['kind']
         self.stats[k] = self.stats.get(k, 0) + 1
-        if k in ('ExprWithCleanups', 'MaterializeTemporaryExpr', 'CXXBindTemporaryExpr', 'ConstantExpr'):
-            return self.expr(e['inner'][0])
+        if k in ('ExprWithCleanups', 'MaterializeTemporaryExpr', 'CXXBindTemporaryExpr', 'ConstantExpr', 'SubstNonTypeTemplateParmExpr'):
+            return self.expr([c for c in e['inner'] if c.get('kind') != 'NonTypeTemplateParmDecl'][-1])
         if k == 'ParenExpr':
             return '(' + self.expr(e['inner'][0]) + ')'
         if k == 'ImplicitCastExpr':
@@ -331,7 +365,18 @@ class Emitter:
                     return '(*%s)' % r['name']
                 return r['name']
             if r['kind'] == 'EnumConstantDecl':
-                return cname(r['name'])
+                d = self.tu.byid.get(r['id'], r)
+                def val(n):
+                    if 'value' in n and n.get('kind') in ('ConstantExpr', 'IntegerLiteral'):
+                        return n['value']
+                    for c in n.get('inner', []):
+                        v = val(c)
+                        if v is not None:
+                            return v
+                v = val(d)
+                if v is None:
+                    raise Abort('enum constant without explicit value: ' + r['name'])
+                return '%s /*%s*/' % (v, r['name'])
             raise Abort('declref to ' + r['kind'])
         if k == 'MemberExpr':
             base = e['inner'][0]
@@ -349,6 +394,8 @@ class Emitter:
             if 'argType' in e:
                 return '%s(%s)' % (e['name'], self.ctype(e['argType']))
             return '%s(%s)' % (e['name'], self.expr(e['inner'][0]))
+        if k == 'ArraySubscriptExpr':
+            return '%s[%s]' % (self.expr(e['inner'][0]), self.expr(e['inner'][1]))
         if k == 'CallExpr':
             callee = e['inner'][0]
             args = e['inner'][1:]
@@ -388,6 +435,18 @@ class Emitter:
         out = []
         ps = self.params(fn) if fn else []
         for i, a in enumerate(args):
+            if a['kind'] == 'CXXDefaultArgExpr':
+                init = [c for c in ps[i].get('inner', []) if 'Comment' not in c.get('kind', '')]
+                if not init:
+                    # definition may not repeat the default; look at previous declarations
+                    q = self.tu.byid.get(fn.get('previousDecl')) if fn.get('previousDecl') else None
+                    while q is not None and not init:
+                        qp = self.params(q)
+                        init = [c for c in qp[i].get('inner', []) if 'Comment' not in c.get('kind', '')]
+                        q = self.tu.byid.get(q.get('previousDecl')) if q.get('previousDecl') else None
+                if not init:
+                    raise Abort('default argument not found for param %d of %s' % (i, fn.get('name')))
+                a = init[0]
             s = self.expr(a)
             if i < len(ps) and self.is_ref(ps[i]['type']):
                 s = '&' + s
